@@ -143,7 +143,9 @@ def shrink(c):
 
 
 # ---- command-line glue: a multi-alignment Phylip input must be treated as its alignments one by one (`detmulti`) ----
-MULTI_CMDS = [['compress', '--weight-out', 'w.txt'], ['compress'], ['dedup', 'dedup-files'], ['dedup', '-l', 'd.log'], ['dedup', '--n-as-gap']]
+MULTI_CMDS = [['compress', '--weight-out', 'w.txt'], ['compress'], ['dedup', 'dedup-files'], ['dedup', '-l', 'd.log'], ['dedup', '--n-as-gap'],
+              ['dedup', '--name']]
+MULTI_CMDS_N = [['dedup', '--n-as-gap'], ['dedup', '--n-as-gap', '-l', 'd.log']]
 
 
 def gen(rng, tier):
@@ -160,4 +162,6 @@ def gen(rng, tier):
     for _ in range(2 if tier == "quick" else 20):
         for argv in MULTI_CMDS:
             yield multigen.multi_case(multigen.alignments(rng), argv, "cli-multi-" + "-".join(argv[:2]))
+        for argv in MULTI_CMDS_N:      # the flags that concern N need alignments holding N
+            yield multigen.multi_case(multigen.alignments(rng, alphabet="ACGTN"), argv, "cli-multi-" + "-".join(argv[:2]) + "-n")
 
